@@ -90,6 +90,7 @@ pub fn checks() -> Vec<Check> {
             st("c02.meta", c02::meta, (0, 0), 3, "1905 metadata-rich files (every catalogue string incl. non-ASCII and astral characters in every string field, 5 image kinds rotating)"),
             st("c02.ext", c02::ext, (0, 0), 3, "all sequences of <=3 extension registration attempts over 2 prefixes x {2 URLs, empty URL, the E57 namespace, the two reserved XML namespace names} (a prefix can be registered once, never with one of the unusable names), then a cloud with an extension attribute"),
             st("c02.blobs", c02::blobs, (0, 0), 3, "blob + cylindrical image payload length 0..=1023 x 17 start residues; payload sources delivering in full / in halves / alternating (rotated)"),
+            st("c02.failed_source", c02::failed_source, (0, 0), 3, "add_blob whose payload source fails after k bytes (11 values around 0, 4 and the page size) behind 5 alignments, followed by a small cloud / a multi-packet cloud / an image / a blob: the call reports the failure and the finalized file is still well-formed and complete"),
             st("c02.long_blobs", c02::long_blobs, (0, 0), 3, "blob and image payloads of 12 long lengths (multi-page, around powers of two, up to 1 MiB) x 3 source read modes"),
         ],
         extra: None,
